@@ -4,7 +4,7 @@ import PoxModel.Spec.OF10Table
 /-! Line-protocol driver for C04: runs the model (`Model/FlowMod.step`) and, separately, the specification
 (`Spec/OF10Table.step`) over one history.
 
-request  `{"now":ms,"max":n,"bufs":n,"cfg":[strictMutual,maskUndefined,statsUnwire,arpLow8,prereqExact,exactSig],"ops":[op…]}` with
+request  `{"now":ms,"max":n,"bufs":n,"cfg":[strictMutual,maskUndefined,statsUnwire,arpLow8,prereqExact,exactSig,tosDscp],"ops":[op…]}` with
   `{"op":"fm","cmd":n,"m":rec,"cookie":n,"idle":n,"hard":n,"prio":n,"out_port":n,"flags":n,"acts":[act…],"buf":n|null}`
   `{"op":"pkt","phdr":P,"port":n,"len":n}`   `{"op":"adv","dt":ms}`   `{"op":"sweep"}`
   `{"op":"fstats","m":rec,"out_port":n}`     `{"op":"astats","m":rec,"out_port":n}`
@@ -13,7 +13,7 @@ request  `{"now":ms,"max":n,"bufs":n,"cfg":[strictMutual,maskUndefined,statsUnwi
 answer   `{"model":[{"outs":[out…],"table":[entry…],"pool":[0/1…]}… per step], "spec":[{"outs":[…],"flows":[…],"pool":[0/1…]}…]}`
   model entry `[priority, effective priority, rec of the match object, acts, cookie, flags, idle, hard, created, touched, packets, bytes]`
   spec flow   `[priority, rank, rec as transmitted, acts, cookie, flags, idle, hard, installed, lastUsed, packets, bytes]`
-  out: `{"k":"fr","m":rec,"cookie","prio","reason","ds","dn","idle","pk","by"}` | `{"k":"err","t","c"}` | `{"k":"pin","port","bid"}`
+  out: `{"k":"fr","m":rec,"cookie","prio","reason","ds","dn","idle","pk","by"}` | `{"k":"err","t","c"}` | `{"k":"pin","port","bid","reason"}`
      | `{"k":"rel","id","len","port","acts"}`
      | `{"k":"fs","l":[[rec,ds,dn,prio,idle,hard,cookie,pk,by,acts]…]}` | `{"k":"as","pk","by","n"}` -/
 open Pox Pox.Proto Pox.OF Pox.FlowMod
@@ -90,7 +90,7 @@ def outJ : Out → J
       ("reason", J.ofNat m.reason), ("ds", J.ofNat m.durSec), ("dn", J.ofNat m.durNsec), ("idle", J.ofNat m.idle),
       ("pk", J.ofNat m.packets), ("by", J.ofNat m.bytes)]
   | .error t c => J.mk [("k", J.str "err"), ("t", J.ofNat t), ("c", J.ofNat c)]
-  | .packetIn p b => J.mk [("k", J.str "pin"), ("port", J.ofNat p), ("bid", J.ofOptNat b)]
+  | .packetIn p b r => J.mk [("k", J.str "pin"), ("port", J.ofNat p), ("bid", J.ofOptNat b), ("reason", J.ofNat r)]
   | .release id f a => J.mk [("k", J.str "rel"), ("id", J.ofNat id), ("len", J.ofNat f.len), ("port", J.ofNat f.inPort),
       ("acts", J.arr (a.map actJ))]
   | .flowStats l => J.mk [("k", J.str "fs"), ("l", J.arr (l.map fun f =>
@@ -103,7 +103,7 @@ def soutJ : Spec.SOut → J
       ("reason", J.ofNat m.reason), ("ds", J.ofNat m.durSec), ("dn", J.ofNat m.durNsec), ("idle", J.ofNat m.idle),
       ("pk", J.ofNat m.packets), ("by", J.ofNat m.bytes)]
   | .error t c => J.mk [("k", J.str "err"), ("t", J.ofNat t), ("c", J.ofNat c)]
-  | .packetIn p b => J.mk [("k", J.str "pin"), ("port", J.ofNat p), ("bid", J.ofOptNat b)]
+  | .packetIn p b r => J.mk [("k", J.str "pin"), ("port", J.ofNat p), ("bid", J.ofOptNat b), ("reason", J.ofNat r)]
   | .release id f a => J.mk [("k", J.str "rel"), ("id", J.ofNat id), ("len", J.ofNat f.len), ("port", J.ofNat f.inPort),
       ("acts", J.arr (a.map actJ))]
   | .flowStats l => J.mk [("k", J.str "fs"), ("l", J.arr (l.map fun f =>
@@ -141,9 +141,9 @@ def handle (j : J) : Except String J := do
   let mb ← j.nat "bufs"
   let cfg : Cfg ← (do
     match ← (← j.array "cfg").mapM J.asBool with
-    | [a, b, c, d, e, f] =>
-      pure { strictMutual := a, maskUndefined := b, statsUnwire := c, mv := { arpLow8 := d, prereqExact := e, exactSig := f } }
-    | _ => bad "cfg: six booleans expected")
+    | [a, b, c, d, e, f, g] =>
+      pure { strictMutual := a, maskUndefined := b, statsUnwire := c, mv := { arpLow8 := d, prereqExact := e, exactSig := f }, tosDscp := g }
+    | _ => bad "cfg: seven booleans expected")
   pure (J.mk [("model", J.arr (runModel (init cfg now mx mb) ops)),
               ("spec", J.arr (runSpec { flows := [], now := now, capacity := mx, buffers := { slots := [], max := mb } } ops))])
 
